@@ -89,12 +89,13 @@ pub fn judge(ctx: &mut Ctx, b: &[u8], what: &str) {
                 let mut rng = crate::util::Rng::new(Fp::new().bytes(b).0);
                 let cuts = crate::gen::random_cuts(&mut rng, b.len(), 5);
                 if !cuts.is_empty() {
-                    let o2 = run_stream(Some(NO_LIMIT), b, &cuts, Gap::None, false);
+                    let gap = if b.len() % 2 == 0 { Gap::WouldBlock } else { Gap::Interrupted };
+                    let o2 = run_stream(Some(NO_LIMIT), b, &cuts, gap, false);
                     ctx.rep.count("forward_agreements_segmented");
                     if o2.fault.is_some() || o2.delivered.first() != Some(r1) {
                         ctx.rep.violation(
                             "C14:oneshot-accepts-connection-differs",
-                            format!("[{}] one-shot parser returned {:?}; connection fed the same bytes cut at {:?}: first={:?} error={:?} fault={:?}", what, r1, cuts, o2.delivered.first(), o2.error, o2.fault),
+                            format!("[{}] one-shot parser returned {:?}; connection fed the same bytes cut at {:?} with an empty read in every gap: first={:?} error={:?} fault={:?}", what, r1, cuts, o2.delivered.first(), o2.error, o2.fault),
                             J::obj(vec![("engine", J::s("scripted-stream+one-shot")), ("what", J::s(what)), ("direction", J::s("->segmented")), ("slice_hex", J::hexs(b)), ("slice_show", J::s(&show(b))), ("cuts", J::Arr(cuts.iter().map(|c| J::u(*c as u64)).collect()))]),
                         );
                         return;
